@@ -84,3 +84,14 @@ Proof. intros L. revert lo. induction L as [y | y s0 r e Hl Hr IH]; cbn [isbnd];
 
 Lemma lookup_app_some o fr ext sl : lookup o fr = Some sl -> lookup o (fr ++ ext) = Some sl.
 Proof. induction fr as [|[a b] fr IH]; cbn [lookup app]; [discriminate|]. destruct (a =? o); auto. Qed.
+
+(* two frames of a laid sequence are the same frame or do not overlap *)
+Lemma laid_disj c b l h o sl o' sl' : laid c b l h -> In (o, sl) l -> In (o', sl') l ->
+  (o = o' /\ sl = sl') \/ o + align (s_len sl) FA <= o' \/ o' + align (s_len sl') FA <= o.
+Proof. induction 1 as [x | x s0 r e Hl Hr IH]; intros H1 H2; [destruct H1|].
+  destruct (laid_bounds c _ _ _ Hr) as (_ & B).
+  destruct H1 as [E1 | H1]; destruct H2 as [E2 | H2].
+  - inversion E1; inversion E2; subst. left. split; reflexivity.
+  - inversion E1; subst. destruct (B _ _ H2) as (B1 & _). right; left. assumption.
+  - inversion E2; subst. destruct (B _ _ H1) as (B1 & _). right; right. assumption.
+  - apply IH; assumption. Qed.
